@@ -13,7 +13,8 @@
      mps_orth_calls      the list of arguments of all numpy.linalg.qr calls issued by the sweep (depends on the answers) *)
 From Coq Require Import ZArith QArith Qcanon List Bool Lia.
 From PT Require Import Base.Scalar Base.Field Base.BigSum Base.Mx Model.Tensor Model.BondOps Model.Orthonormalize.
-From PT Require Import Proofs.BondOpsSpec Proofs.OrthDefs Proofs.OrthQRExtra Proofs.OrthSweep Proofs.OrthTop.
+From PT Require Import Proofs.BondOpsSpec Proofs.OrthDefs Proofs.OrthQRExtra Proofs.OrthSweep Proofs.OrthTop Proofs.OrthBool.
+From PT Require Import Proofs.OrthRight Proofs.OrthMPO Proofs.OrthMPORight.
 Import ListNotations.
 Open Scope nat_scope.
 
@@ -47,6 +48,77 @@ Theorem C01_orth_left_spec : forall (F : ofield) (dqr : mx (Cx F) -> mx (Cx F) *
 Proof. intros F dqr p d. exact (orth_left_spec F dqr p d). Qed.
 Print Assumptions C01_orth_left_spec.
 
+(* ---- MPS, mode = 'right': the mirror image.  Every site tensor of psi' is a right isometry (sum_s A[s] A[s]^H = I), the last
+   bond charges are kept, the first bond has dimension 1, and the bond bound runs from the right:
+   D'_{i} <= min(d * D'_{i+1}, D_i)  (bond_bound on the reversed dimension lists).  Proved by showing that the model's right
+   sweep is the left sweep on the reversed chain of transposed tensors with negated bond charges (Proofs/OrthRight.v
+   [orth_right_mirror]), with the same oracle calls. *)
+Theorem C01_orth_right_spec : forall (F : ofield) (dqr : mx (Cx F) -> mx (Cx F) * mx (Cx F)) (p : mps (Cx F)) (d : nat),
+  1 <= d -> length (m_qd p) = d -> m_A p <> [] -> mps_ok p = true ->
+  length (hd [] (m_qD p)) = 1 -> length (last (m_qD p) []) = 1 ->
+  Forall (fun q => 1 <= length q) (m_qD p) ->
+  Forall (qr_call_ok F dqr) (mps_orth_calls dqr false p) ->
+  exists p' nrm, mps_orthonormalize dqr false p = Some (p', nrm) /\
+    m_qd p' = m_qd p /\ length (m_A p') = length (m_A p) /\ mps_ok p' = true /\
+    last (m_qD p') [] = last (m_qD p) [] /\ length (hd [] (m_qD p')) = 1 /\
+    Forall (fun q => 1 <= length q) (m_qD p') /\
+    bond_bound d (rev (lens (m_qD p'))) (rev (lens (m_qD p))) /\
+    chain_riso (lens (m_qD p')) (m_A p') /\
+    fle F (f0 F) nrm /\
+    (forall w, length w = length (m_A p) -> letters d w ->
+       amp (m_A p) w = kmul (Cx F) (cof nrm) (amp (m_A p') w)) /\
+    norm2 d (m_A p) = cof (fmul F nrm nrm) /\
+    norm2 d (m_A p') = k1 (Cx F).
+Proof. intros F dqr p d. exact (orth_right_spec F dqr p d). Qed.
+Print Assumptions C01_orth_right_spec.
+
+(* ---- MPO, both modes: the model runs the MPS code on the view with physical index s*d + t and physical charge qd[s] - qd[t]
+   ([mpo_view], validated against MPO.orthonormalize by the correspondence check).  opamp O w w' = <w|O|w'>;
+   the Frobenius norm^2 of the operator is norm2 (d*d) of the view; isometry is stated for the view tensors
+   (sum_{s,t} W[s][t]^H W[s][t] = I resp. sum_{s,t} W[s][t] W[s][t]^H = I). *)
+Theorem C01_mpo_orth_left_spec : forall (F : ofield) (dqr : mx (Cx F) -> mx (Cx F) * mx (Cx F)) (o : mpo (Cx F)) (d : nat),
+  1 <= d -> length (o_qd o) = d -> o_A o <> [] -> mpo_ok o = true ->
+  length (hd [] (o_qD o)) = 1 -> length (last (o_qD o) []) = 1 ->
+  Forall (fun q => 1 <= length q) (o_qD o) ->
+  Forall (qr_call_ok F dqr) (mpo_orth_calls dqr true o) ->
+  exists o' nrm, mpo_orthonormalize dqr true o = Some (o', nrm) /\
+    o_qd o' = o_qd o /\ length (o_A o') = length (o_A o) /\ mpo_ok o' = true /\
+    hd [] (o_qD o') = hd [] (o_qD o) /\ length (last (o_qD o') []) = 1 /\
+    Forall (fun q => 1 <= length q) (o_qD o') /\
+    bond_bound (d * d) (lens (o_qD o')) (lens (o_qD o)) /\
+    chain_liso (lens (o_qD o')) (map oview (o_A o')) /\
+    fle F (f0 F) nrm /\
+    (forall w w', length w = length (o_A o) -> length w' = length (o_A o) -> letters d w -> letters d w' ->
+       opamp (o_A o) w w' = kmul (Cx F) (cof nrm) (opamp (o_A o') w w')) /\
+    norm2 (d * d) (map oview (o_A o)) = cof (fmul F nrm nrm) /\
+    norm2 (d * d) (map oview (o_A o')) = k1 (Cx F).
+Proof. intros F dqr o d. exact (mpo_orth_left_spec F dqr o d). Qed.
+Print Assumptions C01_mpo_orth_left_spec.
+
+Theorem C01_mpo_orth_right_spec : forall (F : ofield) (dqr : mx (Cx F) -> mx (Cx F) * mx (Cx F)) (o : mpo (Cx F)) (d : nat),
+  1 <= d -> length (o_qd o) = d -> o_A o <> [] -> mpo_ok o = true ->
+  length (hd [] (o_qD o)) = 1 -> length (last (o_qD o) []) = 1 ->
+  Forall (fun q => 1 <= length q) (o_qD o) ->
+  Forall (qr_call_ok F dqr) (mpo_orth_calls dqr false o) ->
+  exists o' nrm, mpo_orthonormalize dqr false o = Some (o', nrm) /\
+    o_qd o' = o_qd o /\ length (o_A o') = length (o_A o) /\ mpo_ok o' = true /\
+    last (o_qD o') [] = last (o_qD o) [] /\ length (hd [] (o_qD o')) = 1 /\
+    Forall (fun q => 1 <= length q) (o_qD o') /\
+    bond_bound (d * d) (rev (lens (o_qD o'))) (rev (lens (o_qD o))) /\
+    chain_riso (lens (o_qD o')) (map oview (o_A o')) /\
+    fle F (f0 F) nrm /\
+    (forall w w', length w = length (o_A o) -> length w' = length (o_A o) -> letters d w -> letters d w' ->
+       opamp (o_A o) w w' = kmul (Cx F) (cof nrm) (opamp (o_A o') w w')) /\
+    norm2 (d * d) (map oview (o_A o)) = cof (fmul F nrm nrm) /\
+    norm2 (d * d) (map oview (o_A o')) = k1 (Cx F).
+Proof. intros F dqr o d. exact (mpo_orth_right_spec F dqr o d). Qed.
+Print Assumptions C01_mpo_orth_right_spec.
+
+(* Not proved in Coq (validated on every generated input by harness/props/c01.py): that numpy.linalg.qr meets [qr_call_ok]
+   (measured on every recorded call), rounding (the theorems are exact; prop checks isometry to 1e-8), and that the code
+   computes what the model computes (replay, form R).  The sparsity / dimension statements need every bond dimension >= 1
+   (true for every object the public constructors build). *)
+
 (* len(A) == 0 returns 1 and leaves the object unchanged *)
 Theorem C01_orth_empty : forall (F : ofield) dqr left (p : mps (Cx F)),
   m_A p = [] -> mps_orthonormalize dqr left p = Some (p, f1 F).
@@ -70,12 +142,6 @@ Definition ex_tbl : list (mx (Cx QcF) * (mx (Cx QcF) * mx (Cx QcF))) :=
     (mc 4 1 [[cq 5 1]; [cq 0 1]; [cq 10 1]; [cq 10 1]],
      (mc 4 1 [[cq 1 3]; [cq 0 1]; [cq 2 3]; [cq 2 3]], mc 1 1 [[cq 15 1]])) ].
 Definition ex_dqr := qr_oracle ex_tbl.
-Lemma ex_rdiag : forall B, In B (map fst ex_tbl) -> rdiag_real QcF (ex_dqr B).
-Proof.
-  intros B [<-|[<-|[]]]; intros i Hi Hj; vm_compute in Hi, Hj.
-  - destruct i as [|[|i]]; try lia; vm_compute; reflexivity.
-  - destruct i as [|i]; try lia; vm_compute; reflexivity.
-Qed.
 Example C01_nonvacuous :
   1 <= 2 /\ length (m_qd ex_p) = 2 /\ m_A ex_p <> [] /\ mps_ok ex_p = true /\
   length (hd [] (m_qD ex_p)) = 1 /\ length (last (m_qD ex_p) []) = 1 /\
@@ -89,9 +155,38 @@ Proof.
   split; [lia|]. split; [reflexivity|]. split; [discriminate|]. split; [vm_compute; reflexivity|].
   split; [reflexivity|]. split; [reflexivity|].
   split. { repeat constructor. }
-  split.
-  - replace (mps_orth_calls ex_dqr true ex_p) with (map fst ex_tbl) by (vm_compute; reflexivity).
-    apply Forall_forall. intros B HB. split; [|apply ex_rdiag; exact HB].
-    apply dqr_okb_sound. destruct HB as [<-|[<-|[]]]; vm_compute; reflexivity.
-  - split; vm_compute; reflexivity.
+  split; [apply qr_call_okb_sound; vm_compute; reflexivity|].
+  split; vm_compute; reflexivity.
+Qed.
+
+(* Non-vacuity for mode = 'right': product state L = 2, d = 2, tensors (3,4) (x) (3,4); two calls (columns (3,4) and (15,20));
+   the oracle table meets the contract on both and the model returns nrm = 25. *)
+Definition ex_r : mps (Cx QcF) :=
+  mkmps [0; 0]%Z [[0]; [0]; [0]]%Z
+    [ [mc 1 1 [[cq 3 1]]; mc 1 1 [[cq 4 1]]]; [mc 1 1 [[cq 3 1]]; mc 1 1 [[cq 4 1]]] ].
+Definition ex_rtbl : list (mx (Cx QcF) * (mx (Cx QcF) * mx (Cx QcF))) :=
+  [ (mc 2 1 [[cq 3 1]; [cq 4 1]], (mc 2 1 [[cq 3 5]; [cq 4 5]], mc 1 1 [[cq 5 1]]));
+    (mc 2 1 [[cq 15 1]; [cq 20 1]], (mc 2 1 [[cq 3 5]; [cq 4 5]], mc 1 1 [[cq 25 1]])) ].
+Example C01_right_nonvacuous :
+  mps_ok ex_r = true /\ Forall (qr_call_ok QcF (qr_oracle ex_rtbl)) (mps_orth_calls (qr_oracle ex_rtbl) false ex_r) /\
+  length (mps_orth_calls (qr_oracle ex_rtbl) false ex_r) = 2 /\
+  match mps_orthonormalize (qr_oracle ex_rtbl) false ex_r with Some (_, nrm) => feqb QcF nrm (qq 25 1) | None => false end = true.
+Proof.
+  split; [vm_compute; reflexivity|]. split; [apply qr_call_okb_sound; vm_compute; reflexivity|]. split; vm_compute; reflexivity.
+Qed.
+(* Non-vacuity for the MPO theorems: one site, d = 2, O = diag(3, 4), both modes; one call (column (3,0,0,4)), nrm = 5 *)
+Definition ex_o : mpo (Cx QcF) :=
+  mkmpo [0; 0]%Z [[0]; [0]]%Z [ [[mc 1 1 [[cq 3 1]]; mc 1 1 [[cq 0 1]]]; [mc 1 1 [[cq 0 1]]; mc 1 1 [[cq 4 1]]]] ].
+Definition ex_otbl : list (mx (Cx QcF) * (mx (Cx QcF) * mx (Cx QcF))) :=
+  [ (mc 4 1 [[cq 3 1]; [cq 0 1]; [cq 0 1]; [cq 4 1]], (mc 4 1 [[cq 3 5]; [cq 0 1]; [cq 0 1]; [cq 4 5]], mc 1 1 [[cq 5 1]])) ].
+Example C01_mpo_nonvacuous :
+  mpo_ok ex_o = true /\
+  Forall (qr_call_ok QcF (qr_oracle ex_otbl)) (mpo_orth_calls (qr_oracle ex_otbl) true ex_o) /\
+  Forall (qr_call_ok QcF (qr_oracle ex_otbl)) (mpo_orth_calls (qr_oracle ex_otbl) false ex_o) /\
+  length (mpo_orth_calls (qr_oracle ex_otbl) true ex_o) = 1 /\
+  match mpo_orthonormalize (qr_oracle ex_otbl) true ex_o, mpo_orthonormalize (qr_oracle ex_otbl) false ex_o with
+  | Some (_, n1), Some (_, n2) => feqb QcF n1 (qq 5 1) && feqb QcF n2 (qq 5 1) | _, _ => false end = true.
+Proof.
+  split; [vm_compute; reflexivity|]. split; [apply qr_call_okb_sound; vm_compute; reflexivity|].
+  split; [apply qr_call_okb_sound; vm_compute; reflexivity|]. split; vm_compute; reflexivity.
 Qed.
